@@ -384,11 +384,14 @@ def wf():
 '''
 
 
-def gen_module(ctx: Ctx, ns: str, name: str, kinds: list, vers: list, tag: str):
+def gen_module(ctx: Ctx, ns: str, name: str, kinds: list, vers: list, tag: str, kwbits: int = 0):
+    """kwbits: bit i-1 set = stage i receives its handle by keyword (the lineage model does not depend on
+    how the argument is passed; the code must not either)."""
     src = "from redun import task\nfrom harness.props.c25 import VH\n\nLOG = []\n"
     for i, (k, v) in enumerate(zip(kinds, vers), start=1):
         src += (PLAIN if k == "plain" else UFORK).format(ns=ns, i=i, ver=v)
-    chain = "\n".join(f"    c = s{i}(c)" for i in range(1, len(kinds) + 1))
+    chain = "\n".join(f"    c = s{i}(c=c)" if (kwbits >> (i - 1)) & 1 else f"    c = s{i}(c)"
+                      for i in range(1, len(kinds) + 1))
     src += WF.format(ns=ns, name=name, chain=chain)
     path = ctx.tmp(f"wfmods/{ns}_{tag}.py")
     path.write_text(src)
@@ -414,11 +417,15 @@ def run_workflow_history(ctx: Ctx, rep: Reporter, sched, wb: dict, uniq: str, so
                          flip: bool = False) -> str:
     """Returns 'ok' | 'dev' | 'viol' | 'drift'.  `flip` corrupts one expectation (negative control)."""
     ns, name = f"c25wf{uniq}", f"conn{uniq}"
+    import zlib
+
+    # every second history passes some handles by keyword (pattern fixed per history)
+    kwbits = (zlib.crc32(uniq.encode()) >> 3) & 0xFF if zlib.crc32(uniq.encode()) & 1 else 0
     following = "F"
     status = "ok"
     some_replay = some_exec = False
     for n, run in enumerate(wb["runs"]):
-        mod = gen_module(ctx, ns, name, wb["kinds"], run["vers"], str(n))
+        mod = gen_module(ctx, ns, name, wb["kinds"], run["vers"], str(n), kwbits)
         try:
             sched.run(mod.wf())
         except Exception as e:
